@@ -455,6 +455,20 @@ class RangeIt(It):
         return StopIteration
 
 
+class SymRangeIt(It):
+    """range with a symbolic bound: the loop body is explored for exactly one iteration (abstraction)"""
+    def __init__(self):
+        self.done = False
+
+    def next(self):
+        if self.done:
+            return StopIteration
+        self.done = True
+        return Term("loop_index")
+
+    next_back = next
+
+
 class ListIt(It):
     def __init__(self, items):
         self.items = list(items)
@@ -1079,6 +1093,10 @@ def as_iter(interp, x):
     if isinstance(x, SlicePtr):
         return ListIt([x.at(i) for i in range(x.len)])
     if isinstance(x, Agg):
+        if x.adt and x.adt.endswith("::Range") and not all(isinstance(v, int) for v in x.items[:2]):
+            if getattr(interp, "sym_ranges", False):
+                return SymRangeIt()
+            raise Unanalysable("loop over a range with a symbolic bound %r" % (x.items[:2],))
         if x.adt and x.adt.endswith("::Range"):
             return RangeIt(x.items[0], x.items[1])
         if x.adt and x.adt.endswith("::RangeInclusive"):
